@@ -313,7 +313,21 @@ pub mod openssl {
             CertView { version: None, serial_random_bits: None, subject: None, issuer: None, pubkey: None,
                        not_before: None, not_after: None, exts: Seq::empty(), signed: None }
         }
-        pub struct X509 { pub not_after: super::asn1::Asn1Time, pub view: Ghost<CertView> }
+        pub struct X509 { pub not_after: super::asn1::Asn1Time, pub view: Ghost<CertView>, pub san: Ghost<Option<Seq<GeneralName>>> }
+        // one subjectAltName entry as OpenSSL hands it out: a dNSName, an iPAddress (4 or 16 octets), or something else (neither)
+        pub struct GeneralName { pub dns: Ghost<Option<Seq<char>>>, pub ip: Ghost<Option<Seq<u8>>> }
+        impl GeneralName {
+            #[verifier::external_body]
+            pub fn dnsname(&self) -> (r: Option<&str>) ensures match r { Some(d) => self.dns@ == Some(d@), None => self.dns@ is None } { unimplemented!() }
+            #[verifier::external_body]
+            pub fn ipaddress(&self) -> (r: Option<&[u8]>) ensures match r { Some(i) => self.ip@ == Some(i@), None => self.ip@ is None } { unimplemented!() }
+        }
+        impl X509 {
+            // the subjectAltName extension, entry by entry (None when the certificate has none)
+            #[verifier::external_body]
+            pub fn subject_alt_names(&self) -> (r: Option<super::stack::Stack<GeneralName>>)
+                ensures match r { Some(s) => self.san@ == Some(s.v@), None => self.san@ is None } { unimplemented!() }
+        }
         pub struct X509Req { pub view: Ghost<CertView> }
         pub struct X509Name { pub view: Ghost<NameView> }
         pub struct X509NameBuilder { pub view: Ghost<NameView> }
